@@ -11,6 +11,7 @@ NAME = "nanro"
 MODULE = "cspuz.puzzle.nanro"
 FUNC = "solve_nanro"
 TIER1 = ("Nanro", "solve_nanro_model")
+TIER1_PRIM = ("NanroPrim", "solve_nanro_model_prim")
 
 
 def call(mod, pb):
